@@ -1,6 +1,7 @@
+pub mod c35;
 pub mod c37;
 pub mod util;
 
 pub fn all() -> Vec<&'static dyn simcore::Property> {
-    vec![&c37::C37]
+    vec![&c35::C35, &c37::C37]
 }
